@@ -13,9 +13,11 @@ VARIABLES out, k,
           sst,    \* (parked schedules only) [ConnsC -> "new" | "started" | "acking" | "finished" | "ended" | "abandoned"]
           pslow,  \* (parked schedules only) the connections whose client is slow to read its CONNACK
           nrel,   \* (parked schedules only) the connections released (decided) and not ended since: an upper bound of the registered ones
-          sup     \* (parked schedules only) the acking connections whose id has certainly been taken over meanwhile
+          sup,    \* (parked schedules only) the acking connections whose id has certainly been taken over meanwhile
+          eok     \* (parked schedules only) the connections that certainly passed the early check (made when the CONNECT arrives, i.e. at
+                  \* start): fewer than Cap connections were released and not ended then
 
-GInit == CInit /\ k = 0 /\ out = ToJson([a |-> "init", cap |-> Cap]) /\ sst = [c \in ConnsC |-> "new"] /\ pslow = {} /\ nrel = {} /\ sup = {}
+GInit == CInit /\ k = 0 /\ out = ToJson([a |-> "init", cap |-> Cap]) /\ sst = [c \in ConnsC |-> "new"] /\ pslow = {} /\ nrel = {} /\ sup = {} /\ eok = {}
 GTry == \E c \in ConnsC :
           /\ st[c] = "new"
           /\ ~(IdOf[c] \in DOMAIN held /\ N >= Cap)
@@ -26,8 +28,8 @@ GEnd == \E c \in ConnsC :
           /\ st[c] = "up" /\ st' = [st EXCEPT ![c] = "gone"]
           /\ Release(c)
           /\ out' = ToJson([a |-> "end", c |-> c, n |-> Cardinality(DOMAIN held')])
-GNext == k < MaxStepsC /\ k' = k + 1 /\ (GTry \/ GEnd) /\ UNCHANGED <<sst, pslow, nrel, sup>>
-GSpec == GInit /\ [][GNext]_<<cvars, out, k, sst, pslow, nrel, sup>>
+GNext == k < MaxStepsC /\ k' = k + 1 /\ (GTry \/ GEnd) /\ UNCHANGED <<sst, pslow, nrel, sup, eok>>
+GSpec == GInit /\ [][GNext]_<<cvars, out, k, sst, pslow, nrel, sup, eok>>
 
 (* ---- schedules with attempts parked between the early check and the registration ----            *)
 (* The Connect (authentication) pipeline of the harness is a gate: start(c) sends c's CONNECT and       *)
@@ -44,8 +46,9 @@ GSpec == GInit /\ [][GNext]_<<cvars, out, k, sst, pslow, nrel, sup>>
 (* of the CONNACK fails.  The broker registered c before it wrote the CONNACK: whatever it does about the failure,        *)
 (* the slot goes back (contract: Release) if c still has it, and NOTHING changes if c's id was taken over by a later        *)
 (* connection while the CONNACK was pending.  The generator keeps the two cases apart (constant Abandon): d certainly       *)
-(* took c's id over if d was released while c was acking and fewer than Cap connections had been released and not ended       *)
-(* (d passed both checks whatever the others did).                                                                            *)
+(* took c's id over if fewer than Cap connections had been released and not ended when d STARTED (d passed the early check,     *)
+(* which is made when its CONNECT arrives, whatever the others did) and d was released while c was acking (the registration      *)
+(* finds c's id registered: a takeover, no second cap check).                                                                    *)
 PInit == GInit
 Busy == Cardinality({x \in ConnsC : sst[x] \in {"started", "acking"}})
 Acking == {x \in ConnsC : sst[x] = "acking"}
@@ -56,24 +59,25 @@ PStart(c)   == /\ sst[c] = "new" /\ Busy < 3
                /\ \E sl \in BOOLEAN : /\ ((sl /\ Abandon # "no") => (\A x \in pslow : sst[x] \in {"abandoned", "ended"}))    \* (one slow reader at a time)
                                        /\ pslow' = (IF sl THEN pslow \cup {c} ELSE pslow)
                                        /\ out' = ToJson([a |-> "start", c |-> c, id |-> IdOf[c], slow |-> sl])
+               /\ eok' = IF Cardinality(nrel) < Cap THEN eok \cup {c} ELSE eok
                /\ UNCHANGED <<nrel, sup>>
 PRelease(c) == /\ sst[c] = "started" /\ sst' = [sst EXCEPT ![c] = IF c \in pslow THEN "acking" ELSE "finished"]
                /\ out' = ToJson([a |-> "release", c |-> c]) /\ UNCHANGED pslow
-               /\ nrel' = nrel \cup {c}
-               /\ sup' = IF Cardinality(nrel) < Cap THEN sup \cup {x \in ConnsC : sst[x] = "acking" /\ IdOf[x] = IdOf[c]} ELSE sup
-PTake(c)    == sst[c] = "acking" /\ sst' = [sst EXCEPT ![c] = "finished"] /\ out' = ToJson([a |-> "take", c |-> c]) /\ UNCHANGED <<pslow, nrel, sup>>
-PEnd(c)     == /\ sst[c] = "finished" /\ sst' = [sst EXCEPT ![c] = "ended"] /\ out' = ToJson([a |-> "end", c |-> c]) /\ UNCHANGED <<pslow, sup>>
+               /\ nrel' = nrel \cup {c} /\ UNCHANGED eok
+               /\ sup' = IF c \in eok THEN sup \cup {x \in ConnsC : sst[x] = "acking" /\ IdOf[x] = IdOf[c]} ELSE sup
+PTake(c)    == sst[c] = "acking" /\ sst' = [sst EXCEPT ![c] = "finished"] /\ out' = ToJson([a |-> "take", c |-> c]) /\ UNCHANGED <<pslow, nrel, sup, eok>>
+PEnd(c)     == /\ sst[c] = "finished" /\ sst' = [sst EXCEPT ![c] = "ended"] /\ out' = ToJson([a |-> "end", c |-> c]) /\ UNCHANGED <<pslow, sup, eok>>
                /\ nrel' = nrel \ {c}
 PAbandon(c) == /\ Abandon # "no" /\ sst[c] = "acking"
                /\ (Abandon = "superseded") <=> (c \in sup)
                /\ sst' = [sst EXCEPT ![c] = "abandoned"] /\ out' = ToJson([a |-> "abandon", c |-> c, sup |-> c \in sup])
-               /\ nrel' = nrel \ {c} /\ UNCHANGED <<pslow, sup>>
+               /\ nrel' = nrel \ {c} /\ UNCHANGED <<pslow, sup, eok>>
 (* abandon families: a slow reader never reads its CONNACK - it gives up as soon as the family's condition holds *)
 Forced == {c \in Acking : Abandon # "no" /\ ((Abandon = "superseded") <=> (c \in sup))}
 PNext == /\ k < MaxStepsC /\ k' = k + 1 /\ UNCHANGED cvars
          /\ IF Forced # {} THEN \E c \in Forced : PAbandon(c)
             ELSE \E c \in ConnsC : PStart(c) \/ PRelease(c) \/ (Abandon = "no" /\ PTake(c)) \/ PEnd(c)
-PSpec == PInit /\ [][PNext]_<<cvars, out, k, sst, pslow, nrel, sup>>
+PSpec == PInit /\ [][PNext]_<<cvars, out, k, sst, pslow, nrel, sup, eok>>
 ParkConns == {"k1", "k2", "k3", "k4", "k5", "k6"}
 ParkId == [c \in ParkConns |-> IF c \in {"k1", "k3", "k5"} THEN "a" ELSE IF c \in {"k2", "k6"} THEN "b" ELSE "c"]
 
